@@ -1006,3 +1006,106 @@ Proof.
   - intros ts' H'. symmetry. exact (proj1 (expand_functional C dc frs) [] ctx0 op ts Hts ts' H').
   - intros Hc. apply (cost_exact C dc ctx0 ops frs opname max fuel op ts); assumption.
 Qed.
+
+(** ** 15. The fuel bound holds for EVERY document (also invalid ones): with more fuel than fragment
+    definitions the model never answers [OutOfFuel], and a walk that returns leaves the on-path set
+    as it found it.  (The correspondence check runs the model with [S (length frs)].) *)
+Section Fuel.
+  Variable C : Type.
+  Variable skip_zero : bool.
+  Variable dc : fcost C.
+  Variable frs : list (bytes * node C).
+
+  Definition path_inv (fuel : nat) (st : state C) : Prop :=
+    NoDup (st_path C st) /\ incl (st_path C st) (map fst frs) /\ (length frs < fuel + length (st_path C st))%nat.
+
+  Definition fuel_ok (fuel : nat) (r : res (state C)) (st : state C) : Prop :=
+    match r with
+    | Ok st' => st_path C st' = st_path C st
+    | Panic => True
+    | OutOfFuel => False
+    end.
+
+  Lemma pop_path st : fuel_ok 0 (pop C st) st.
+  Proof. unfold pop. destruct (st_mults C st); [exact I|]. destruct (st_ctxs C st); [exact I|]. reflexivity. Qed.
+
+  Lemma visit_fuel_ok : forall fuel n st, path_inv fuel st ->
+    fuel_ok fuel (visit C skip_zero dc frs fuel n st) st.
+  Proof.
+    induction fuel as [fuel IHfuel] using lt_wf_ind.
+    intros n. induction n as [k kids IH] using node_ind'.
+    intros st Hinv.
+    (* the children *)
+    assert (HL : forall s, path_inv fuel s -> fuel_ok fuel (visit_list C skip_zero dc frs fuel kids s) s).
+    { clear Hinv. induction IH as [|x l Hx Hl IHl]; intros s Hs.
+      - rewrite visit_list_nil. reflexivity.
+      - rewrite visit_list_cons. specialize (Hx s Hs).
+        destruct (visit C skip_zero dc frs fuel x s) as [s'| |] eqn:E; cbn [fuel_ok] in *; try assumption.
+        assert (Hs' : path_inv fuel s') by (unfold path_inv in *; rewrite Hx; exact Hs).
+        specialize (IHl s' Hs').
+        destruct (visit_list C skip_zero dc frs fuel l s') as [s''| |]; cbn [fuel_ok] in *; try assumption.
+        congruence. }
+    rewrite visit_eq.
+    destruct (st_mults C st) as [|multiplier mrest]; [exact I|].
+    destruct (st_ctxs C st) as [|ctx crest]; [exact I|].
+    (* the switch keeps the path, or fails for a reason other than fuel *)
+    assert (Hsw : match after_switch C skip_zero dc frs fuel k st multiplier ctx with
+                  | Ok (st1, _, _) => st_path C st1 = st_path C st
+                  | Panic => True
+                  | OutOfFuel => False
+                  end).
+    { destruct k as [cost aerr|tn|name|]; cbn [after_switch].
+      - destruct aerr; [reflexivity|].
+        destruct (match cost with Some f => f ctx | None => Some dc end); [reflexivity|exact I].
+      - destruct tn; reflexivity.
+      - destruct (mem_name name (st_path C st)) eqn:Emem; [reflexivity|].
+        destruct (lookup_last C frs name) as [def|] eqn:Elook; [|reflexivity].
+        destruct Hinv as (Hnd & Hincl & Hfuel).
+        apply mem_name_false in Emem.
+        assert (Hnd' : NoDup (name :: st_path C st)) by (constructor; assumption).
+        assert (Hincl' : incl (name :: st_path C st) (map fst frs)).
+        { intros x [Hx|Hx]; [subst x; eapply lookup_last_in; eassumption|apply Hincl; assumption]. }
+        assert (Hlen : (length (name :: st_path C st) <= length frs)%nat).
+        { rewrite <- (map_length fst frs). apply NoDup_incl_length; assumption. }
+        cbn [length] in Hlen.
+        destruct fuel as [|fuel']; [lia|].
+        assert (Hinv' : path_inv fuel' (set_path C st (name :: st_path C st))).
+        { unfold path_inv. cbn [set_path st_path]. repeat split; try assumption. cbn [length]. lia. }
+        pose proof (IHfuel fuel' ltac:(lia) def _ Hinv') as Hdef.
+        destruct (visit C skip_zero dc frs fuel' def (set_path C st (name :: st_path C st))) as [st1| |];
+          cbn [fuel_ok] in Hdef; try assumption.
+        cbn [set_path st_path] in *. rewrite Hdef. apply del_name_head. assumption.
+      - reflexivity. }
+    destruct (after_switch C skip_zero dc frs fuel k st multiplier ctx) as [[[st1 nm] nc]| |]; try assumption.
+    destruct (negb (is_nil (st_errs C st1))); [exact Hsw|].
+    assert (Hpush : path_inv fuel (push C st1 nm nc)).
+    { unfold path_inv in *. cbn [push st_path]. rewrite Hsw. exact Hinv. }
+    specialize (HL _ Hpush).
+    destruct (visit_list C skip_zero dc frs fuel kids (push C st1 nm nc)) as [st3| |]; cbn [fuel_ok] in *; try assumption.
+    pose proof (pop_path st3) as Hpop.
+    destruct (pop C st3) as [st4| |]; cbn [fuel_ok] in *; try assumption.
+    rewrite Hpop, HL. cbn [push st_path]. exact Hsw.
+  Qed.
+End Fuel.
+
+Theorem never_out_of_fuel (C : Type) (skip_zero : bool) (dc : fcost C) (ctx0 : C) :
+  forall ops frs opname vars_err max fuel,
+    (length frs < fuel)%nat ->
+    validate_cost C skip_zero fuel dc ctx0 ops frs opname vars_err max <> ROutOfFuel.
+Proof.
+  intros ops frs opname vars_err max fuel Hfuel. unfold validate_cost.
+  destruct (select_op C ops opname None) as [op|].
+  - destruct vars_err; cbn [is_nil].
+    + discriminate.
+    + match goal with |- context [visit C skip_zero dc frs fuel op ?s] =>
+        pose proof (visit_fuel_ok C skip_zero dc frs fuel op s) as H; set (s0 := s) in *
+      end.
+      assert (Hinv : path_inv C frs fuel s0).
+      { unfold path_inv, s0. cbn [st_path length]. split; [constructor|]. split; [intros x []|lia]. }
+      specialize (H Hinv).
+      destruct (visit C skip_zero dc frs fuel op s0) as [st| |]; cbn [fuel_ok] in H.
+      * destruct (is_nil (st_errs C st)); discriminate.
+      * discriminate.
+      * contradiction.
+  - cbn [is_nil st_errs]. discriminate.
+Qed.
